@@ -627,6 +627,7 @@ def judge_buffer(ctx, res, stream):
     verdicts = []
     base = dict(stream=stream, call=harness_line(c), input_wkt=G.to_wkt(c['g']), distance=d, distance_hex=HEX(d), quadsegs=c['q'], cap=c.get('cap', 1), join=c.get('join', 1),
                 mitre=c.get('mitre', 5.0), implementation=res['out'],
+                case=dict(g=c['g'], d=d, q=c['q'], cap=c.get('cap', 1), join=c.get('join', 1), mitre=c.get('mitre', 5.0), api=c['api'], kind=c.get('kind'), mag=c.get('mag'), f=c.get('f')),
                 rerun="echo '%s' | %s" % (harness_line(c), os.path.join(BUILD, 'bin', 'c06')))
     for p in res['problems']:
         if res.get('checker_error'):
@@ -1028,6 +1029,11 @@ def near_duplicate_case(rng, c):
 
 
 # ------------------------------------------------------------------------------------------------ corpus
+def geom_from_json(x):
+    return (x[0], None if x[1] is None else (tuple(x[1]) if x[0] == 'Point' else [geom_from_json(y) for y in x[1]] if x[0].startswith('Multi') or x[0] == 'GeometryCollection'
+                                              else [tuple(p) for p in x[1]] if x[0] == 'LineString' else [[tuple(p) for p in r] for r in x[1]]))
+
+
 def load_corpus():
     p = os.path.join(ROOT, 'gen/corpus/C06.jsonl')
     out = []
@@ -1036,12 +1042,7 @@ def load_corpus():
             l = l.strip()
             if l and not l.startswith('#'):
                 c = json.loads(l)
-                g = c['g']
-
-                def conv(x):
-                    return (x[0], None if x[1] is None else (tuple(x[1]) if x[0] == 'Point' else [conv(y) for y in x[1]] if x[0].startswith('Multi') or x[0] == 'GeometryCollection'
-                                                              else [tuple(p) for p in x[1]] if x[0] == 'LineString' else [[tuple(p) for p in r] for r in x[1]]))
-                c['g'] = conv(g)
+                c['g'] = geom_from_json(c['g'])
                 c.setdefault('api', 'P'); c.setdefault('cap', 1); c.setdefault('join', 1); c.setdefault('mitre', 5.0)
                 c.setdefault('kind', 'corpus'); c.setdefault('mag', 'corpus'); c.setdefault('f', 0.0)
                 out.append(c)
@@ -1076,7 +1077,7 @@ def fix_assumptions(ctx, ok_coq):
         if g:
             ctx.broken.append(dict(kind='proof', name='hygiene gate', detail=g))
             return False
-        ctx.log('coq ok (header line `Axioms:` ignored); axioms: %s' % sorted(names))
+        ctx.log('coq ok (header line `Axioms:` of the Print Assumptions output is not an axiom); %d assumption names, all whitelisted (stdlib reals + Uint63/PrimInt63)' % len(names))
         return True
     return ok_coq
 
@@ -1125,6 +1126,17 @@ def run(ctx):
         ctx.log('replaying', call)
         out = ctx.run_lines([hexe], [call], timeout=300)[0]
         ctx.log('implementation now returns', out[:300])
+        if rp.get('case') and rp.get('witness'):
+            rc = dict(rp['case']); rc['g'] = geom_from_json(rc['g'])
+            rc['extra_ws'] = [(float.fromhex(rp['witness'][0]), float.fromhex(rp['witness'][1]), 'replay')]
+            rres = eval_buffer_cases(ctx, hexe, drv, [rc], random.Random(1), budget=0)[0]
+            rres['ws'] = rres['ws'][-1:] if not (rres['fi'] or rres['fo']) else rres['ws']
+            vs = judge_buffer(ctx, rres, 'replay')
+            ctx.log('replayed case: %s' % ([(v[0], v[1]) for v in vs] or 'no clause fails'))
+            report(ctx, vs, 'replay', {})
+        ctx.cov['evaluations'] += 1
+        ctx.cov['obligations'] = max(ctx.cov['obligations'], 1)
+        return
 
     # ---- 1. fillet arithmetic: code beside model
     t0 = time.time()
